@@ -229,3 +229,31 @@ Theorem C17_pauliexp_endianness : forall K (O : Ops K), Laws O -> forall x xc y 
                                                              (if neg then kmul O y xc else kmul O x yc)).
 Proof. exact @pauliexp_endianness. Qed.
 Print Assumptions C17_pauliexp_endianness.
+
+(* ---- D5: the AQT mapping ---- *)
+From VF Require Import Sim.Ref Vendor.AQT Vendor.AQTProofs.
+
+(* one operation: AQT's definition of what is emitted is the Cirq gate up to the unit factor g*r, for every exponent,
+   phase exponent and global shift *)
+Theorem C17_aqt_op_sem : forall K (O : Ops K), Laws O -> forall o : aqt_cirq_op (K:=K), aqt_cirq_unit O o ->
+  gate_model O (fst (aqt_cirq_gop o)) = mscale O (aqt_cirq_phase O o) (aqt_vendor_matrix O o).
+Proof. exact @aqt_op_sem. Qed.
+Print Assumptions C17_aqt_op_sem.
+
+(* a whole circuit: _generate_json then _parse_legacy_circuit_json translate operation by operation, append exactly one
+   MEASURE, and the v1 payload's gates act on the same wires with matrices equal to Cirq's up to a unit factor *)
+Theorem C17_aqt_ops_sem : forall K (O : Ops K), Laws O -> forall (nq : nat) (os : list (aqt_cirq_op (K:=K))),
+  os <> [] -> forallb (aqt_cirq_wires_ok nq) os = true ->
+  parse_legacy (map aqt_generate os) = Some (map aqt_emit_v1 os ++ [VMEASURE])%list
+  /\ v1_gops O nq (map aqt_emit_v1 os ++ [VMEASURE])%list = Some (map (aqt_vendor_gop O) os)
+  /\ Forall2 (fun o v => snd v = snd (aqt_cirq_gop o)
+                        /\ (aqt_cirq_unit O o ->
+                            gate_model O (fst (aqt_cirq_gop o)) = mscale O (aqt_cirq_phase O o) (gate_model O (fst v))))
+             os (map (aqt_vendor_gop O) os).
+Proof. exact @aqt_ops_sem. Qed.
+Print Assumptions C17_aqt_ops_sem.
+
+Open Scope Qc_scope.
+Example C17_aqt_example : exists o : aqt_cirq_op (K:=K8), aqt_cirq_unit K8Ops o /\ aqt_cirq_wires_ok 3 o = true.
+Proof. exists (CXXPow (mk8 0 1 0 0) (mk8 0 0 0 (-(1))) (mk8 1 0 0 0) 2%nat 0%nat). split; vm_compute; reflexivity. Qed.
+Close Scope Qc_scope.
